@@ -1,6 +1,6 @@
 CONSTANTS
   NL = 3
-  NN = 2
+  NN = 1
   MaxSubs = 2
   MaxSteps = 5
   GenDepth = 99
